@@ -83,60 +83,62 @@ def expected_lists(desc):
     return out
 
 
-def spec_refs_under_der(e, inder, acc, bad):
-    """Names of all references below a der(...) in an expression/equation spec (own walk)."""
+def spec_refs_under_der(e, inder, acc, bad, loopvars=(), idxhits=None):
+    """Names of all *variable* references below a der(...) in an expression/equation spec (own walk).  Inside a
+    for-loop a reference to the loop index is not a reference to a model variable of that name (`idxhits` collects
+    the index names referenced under der)."""
+    def rec(x, d=inder):
+        spec_refs_under_der(x, d, acc, bad, loopvars, idxhits)
     t = e[0]
     if t == "ref":
         if inder:
-            acc.append(e[1])
+            if e[1] in loopvars:
+                if idxhits is not None:
+                    idxhits.append(e[1])
+            else:
+                acc.append(e[1])
     elif t == "cref":
         if inder:
             acc.append(e[1])
             bad.append(e[1])
     elif t == "idx":
-        spec_refs_under_der(e[2], inder, acc, bad)
+        rec(e[2])
         if inder:
             acc.append(e[1])
     elif t in ("lit", "time"):
         if t == "time" and inder:
             acc.append("time")
     elif t == "der":
-        spec_refs_under_der(e[1], True, acc, bad)
+        rec(e[1], True)
     elif t == "neg":
-        spec_refs_under_der(e[1], inder, acc, bad)
+        rec(e[1])
     elif t == "op":
-        spec_refs_under_der(e[2], inder, acc, bad)
-        spec_refs_under_der(e[3], inder, acc, bad)
+        rec(e[2])
+        rec(e[3])
     elif t == "call":
         for x in e[2:]:
-            spec_refs_under_der(x, inder or e[1] == "der", acc, bad)
+            rec(x, inder or e[1] == "der")
     elif t == "fcall":
         if inder:
             acc.append(e[1])
         for x in e[2:]:
-            spec_refs_under_der(x, inder, acc, bad)
-    elif t in ("delay", "array"):
+            rec(x)
+    elif t in ("delay", "array", "slice", "if"):
         for x in e[1:]:
-            spec_refs_under_der(x, inder, acc, bad)
-    elif t == "slice":
-        for x in e[1:]:
-            spec_refs_under_der(x, inder, acc, bad)
-    elif t == "if":
-        for x in e[1:]:
-            spec_refs_under_der(x, inder, acc, bad)
+            rec(x)
     elif t == "eq":
-        spec_refs_under_der(e[1], inder, acc, bad)
-        spec_refs_under_der(e[2], inder, acc, bad)
+        rec(e[1])
+        rec(e[2])
     elif t == "for":
         for q in e[4]:
-            spec_refs_under_der(q, inder, acc, bad)
+            spec_refs_under_der(q, inder, acc, bad, loopvars + (e[1],), idxhits)
     elif t in ("ifeq", "when"):
         for c in e[1]:
             if c is not True:
-                spec_refs_under_der(c, inder, acc, bad)
+                rec(c)
         for blk in e[2]:
             for q in blk:
-                spec_refs_under_der(q, inder, acc, bad)
+                rec(q)
     else:
         raise HarnessError("bad spec node %r" % (e,))
 
@@ -148,18 +150,19 @@ def spec_count_delays(e):
 
 
 def desc_of_ast_spec(spec):
-    acc, bad = [], []
+    acc, bad, idxhits = [], [], []
     for q in spec.get("initial_equations", []) + spec.get("equations", []):
-        spec_refs_under_der(q, False, acc, bad)
+        spec_refs_under_der(q, False, acc, bad, (), idxhits)
     for s in spec["symbols"]:
         for a in ("value_expr", "start_expr"):
             if s.get(a) is not None:
-                spec_refs_under_der(s[a], False, acc, bad)
+                spec_refs_under_der(s[a], False, acc, bad, (), idxhits)
     names = set(s["name"] for s in spec["symbols"])
     nd = sum(spec_count_delays(q) for q in spec.get("initial_equations", []) + spec.get("equations", []))
     return {"vars": [{"name": s["name"], "type": s["type"], "prefixes": s["prefixes"], "pos": s["order"],
                       "dims": s.get("dims") or [], "nested": False} for s in spec["symbols"]],
-            "der": sorted(set(acc) & names), "ndelay": nd, "bad": sorted(set(bad) & names) if bad else []}
+            "der": sorted(set(acc) & names), "ndelay": nd, "bad": sorted(set(bad) & names) if bad else [],
+            "shadow_der_in_loop": bool(set(idxhits) & names)}
 
 
 # =============================================================================================
@@ -175,6 +178,15 @@ class TextGen:
         self.rng = rng
         self.finding = finding_stream
         self.uid = 0
+        # name of the for-loop index of this file; sometimes a model variable has the same name (the index hides
+        # it inside the loops only).  shadow = "clean": no der() through the index inside a loop;
+        # "derloop": der(v[<index>]) inside a loop as well (open finding C10-F2, own stream)
+        self.idx = rng.choice(["i", "i", "j", "n"])
+        self.shadow = None
+        if finding_stream == "shadow":
+            self.shadow = "derloop"
+        elif not finding_stream and rng.random() < 0.15:
+            self.shadow = "clean"
         # user-defined types derived from the elementary ones (`type Volt = Real(unit="V")`, also of one another):
         # flatten_symbols treats symbols of such types in a separate branch
         self.types = []  # (name, base, text)
@@ -296,23 +308,37 @@ class TextGen:
             if it["dims"]:
                 if not isvar:
                     continue
-                u = r.random()
                 dim = it["dims"][0]
-                if u < 0.25:
+                ix = self.idx
+                # any subset of the usages: several loops over one array (in equations and in initial equations)
+                # share the index name
+                if r.random() < 0.25:
                     e, _ = self.expr(atoms, 1)
                     eqs.append("  der(%s[%d]) = %s;" % (n, r.randint(1, dim), e))
                     der_local.append(n)
-                elif u < 0.5:
-                    body = ["    der(%s[i]) = %s[i] + %s;" % (n, n, r.choice(LITS))]
-                    eqs.append("  for i in 1:%d loop\n%s\n  end for;" % (dim, "\n".join(body)))
-                    der_local.append(n)
-                elif u < 0.6:
-                    eqs.append("  for i in 1:%d loop\n    %s[i] = 2 * der(%s[i]) + 1;\n  end for;" % (dim, n, n))
-                    der_local.append(n)
-                elif u < 0.7:
+                if self.shadow != "clean":
+                    if r.random() < (0.35 if self.shadow is None else 1.0):
+                        body = ["    der(%s[%s]) = %s[%s] + %s;" % (n, ix, n, ix, r.choice(LITS))]
+                        eqs.append("  for %s in 1:%d loop\n%s\n  end for;" % (ix, dim, "\n".join(body)))
+                        der_local.append(n)
+                        self.der_in_loop = True
+                    if r.random() < 0.15:
+                        eqs.append("  for %s in 1:%d loop\n    %s[%s] = 2 * der(%s[%s]) + 1;\n  end for;"
+                                   % (ix, dim, n, ix, n, ix))
+                        der_local.append(n)
+                        self.der_in_loop = True
+                    if r.random() < 0.2:
+                        ieqs.append("  for %s in 1:%d loop\n    der(%s[%s]) = 0;\n  end for;" % (ix, dim, n, ix))
+                        der_local.append(n)
+                        self.der_in_loop = True
+                if r.random() < 0.1:
                     ieqs.append("  der(%s[1]) = 0;" % n)
                     der_local.append(n)
-                elif u < 0.85:
+                if r.random() < (0.3 if self.shadow != "clean" else 1.0):
+                    # a loop without der(): the index is an ordinary value in the body
+                    eqs.append("  for %s in 1:%d loop\n    %s[%s] = 2 * %s + %s;\n  end for;"
+                               % (ix, dim, n, ix, ix, self.expr([a for a in atoms if a[1] != n], 1)[0]))
+                elif r.random() < 0.15:
                     eqs.append("  %s[1] = %s;" % (n, self.expr(atoms, 1)[0]))
                 continue
             u = r.random()
@@ -380,7 +406,17 @@ class TextGen:
             classes[name] = {"name": name, "items": items}
             order.append(name)
         items = [self.decl(True, True) for _ in range(r.randint(3, 9))]
-        if self.finding:
+        self.der_in_loop = False
+        if self.shadow:
+            # a Real variable named like the loop index, and an array to loop over
+            items.append({"kind": "var", "name": self.idx, "type": "Real", "var": "", "caus": r.choice(["", "output"]),
+                          "dims": [], "binding": None, "noatom": False})
+            if not any(it["kind"] == "var" and it["type"] == "Real" and it["dims"] and 0 not in it["dims"]
+                       and it["var"] not in ("parameter", "constant") for it in items):
+                items.append({"kind": "var", "name": self.fresh("r"), "type": "Real", "var": "", "caus": "",
+                              "dims": [2], "binding": None, "noatom": False})
+            r.shuffle(items)
+        if self.finding is True:
             items.insert(r.randint(0, len(items)), {"kind": "var", "name": self.fresh("s"), "type": "String",
                                                     "var": r.choice(["", "discrete"]), "caus": "output", "dims": [],
                                                     "binding": None})
@@ -444,7 +480,9 @@ class TextGen:
 
         inst("M", "")
         return {"kind": "text", "text": text, "name": "M",
-                "desc": {"vars": vars_, "der": sorted(set(der)), "ndelay": ndelay}}
+                "desc": {"vars": vars_, "der": sorted(set(der)), "ndelay": ndelay,
+                         "shadow": self.idx if self.shadow else None,
+                         "shadow_der_in_loop": bool(self.shadow and self.der_in_loop)}}
 
 
 PREFIX_POOL = ["constant", "parameter", "input", "output", "discrete", "state", "flow"]
@@ -466,6 +504,8 @@ def gen_ast_case(rng, annot_only):
         elif rng.random() < 0.06:
             dims = [0]
         name = "v%d" % i if rng.random() < 0.8 else "a%d.w%d" % (rng.randint(0, 2), i)
+        if annot_only and i == 0 and rng.random() < 0.12:
+            name, typ, dims = "i", "Real", []  # a model variable named like the for-index of this stream
         syms.append({"name": name, "type": typ, "prefixes": pf, "order": rng.randint(0, 6) if rng.random() < 0.5 else i,
                      "dims": dims})
     reals = [s for s in syms if s["type"] == "Real" and 0 not in s["dims"]]
@@ -569,6 +609,24 @@ def impl_lists(model):
     return d
 
 
+def stray_symbols(model, got, desc):
+    """Names of symbols of the generated (initial) equations that are neither `time` nor in one of the lists.
+    der(<x>) of a constant / parameter / input x that the source differentiates is tolerated (the generator creates a
+    derivative symbol for any symbol under der(); only states get a der_states entry — a C11 matter)."""
+    import casadi as ca
+    listed = {"time"}
+    for k in ("states", "der_states", "alg_states", "inputs", "parameters", "constants", "string_parameters",
+              "string_constants"):
+        listed.update(got[k])
+    listed.update("der(%s)" % n for n in desc["der"])
+    out = set()
+    for e in list(model.equations) + list(model.initial_equations):
+        for sy in ca.symvar(ca.MX(e)):
+            if sy.name() not in listed:
+                out.add(sy.name())
+    return sorted(out)
+
+
 def build_tree(case):
     if case["kind"] == "text":
         from pymoca import parser
@@ -657,6 +715,11 @@ def check_case(ctx, case, drv):
         ctx.violation("generate raised %s on a model of the property's domain" % raised, case,
                       expected=want, observed="%s: %s" % (raised, str(e)[:200]), kind="input")
     if got is not None:
+        stray = stray_symbols(model, got, desc)
+        if stray:
+            ctx.violation("the generated equations use a symbol that is in no category", case,
+                          expected="every symbol of the equations is time or a listed variable / derivative",
+                          observed=stray, kind="input")
         for k in LISTS:
             if got[k] != want[k]:
                 ctx.violation("Model.%s differs from the classification by the property's precedence" % k, case,
@@ -790,7 +853,8 @@ def run(ctx):
         check_case(ctx, c, drv)
     quick = ctx.tier == "quick"
     n_text, n_ast, n_annot = (450, 350, 550) if quick else (12000, 9000, 14000)
-    plan = [("finding", 3 if quick else 20), ("text", n_text), ("ast", n_ast), ("annot", n_annot)]
+    plan = [("finding", 3 if quick else 20), ("shadow", 3 if quick else 20), ("text", n_text), ("ast", n_ast),
+            ("annot", n_annot)]
     for stream, n in plan:
         for i in range(n):
             if ctx.time_left() < 0:
@@ -800,6 +864,8 @@ def run(ctx):
                 case = TextGen(ctx.rng).make()
             elif stream == "finding":
                 case = TextGen(ctx.rng, finding_stream=True).make()
+            elif stream == "shadow":
+                case = TextGen(ctx.rng, finding_stream="shadow").make()
             else:
                 case = gen_ast_case(ctx.rng, stream == "annot")
             got = check_case(ctx, case, drv)
